@@ -140,6 +140,14 @@ func ruleErrs(r *Run, p *Program, rule string) {
 				r.ok(rule, key, p.Pos(in.Pos()), "error dropped in a closure that runs only when the enclosing function's error is already non-nil (cleanup)", true)
 				return
 			}
+			// the error is provably nil: the callee returns only nil or what a callback parameter returned, and the
+			// callback passed here never returns an error (an iterator helper driven by a callback that cannot fail)
+			if !isDefer {
+				if c, ok := in.(*ssa.Call); ok && errAlwaysNilAt(c) {
+					r.ok(rule, key, p.Pos(in.Pos()), "the dropped error is always nil here: the callee only forwards the error of a callback, and the callback passed at this site returns none", true)
+					return
+				}
+			}
 			// a local clean-up helper (closure) that its parent calls only on paths that already fail
 			if par := f.Parent(); par != nil {
 				var sites []ssa.Instruction
@@ -220,6 +228,59 @@ func ruleErrs(r *Run, p *Program, rule string) {
 		})
 	}
 	r.universe(rule, n, 60)
+}
+
+// errAlwaysNilAt: the error result of call c (a module function) is nil on every path: each return of the callee has a
+// nil error, or forwards the error result of a call to one of its function-typed parameters whose argument at c is a
+// closure (or function) that returns only nil errors.
+func errAlwaysNilAt(c *ssa.Call) bool {
+	g := c.Call.StaticCallee()
+	if g == nil || g.Blocks == nil || !inModule(g) {
+		return false
+	}
+	idx := errResultIndex(g)
+	if idx < 0 {
+		return false
+	}
+	neverFails := func(h *ssa.Function) bool {
+		if h == nil || h.Blocks == nil {
+			return false
+		}
+		hi := errResultIndex(h)
+		if hi < 0 {
+			return true
+		}
+		for _, ret := range returnsOf(h) {
+			if !isNilConst(strip(retOperand(ret, hi))) {
+				return false
+			}
+		}
+		return true
+	}
+	for _, ret := range returnsOf(g) {
+		for _, o := range sources(retOperand(ret, idx)) {
+			if isNilConst(strip(o)) {
+				continue
+			}
+			cb, _ := callResult(o)
+			if cb == nil {
+				return false
+			}
+			pa, ok := strip(cb.Call.Value).(*ssa.Parameter)
+			if !ok {
+				return false
+			}
+			i := paramIndex(pa)
+			if i < 0 || i >= len(c.Call.Args) {
+				return false
+			}
+			h, _, _ := resolveFuncValue(&Ctx{Fn: c.Parent()}, c.Call.Args[i], 0)
+			if !neverFails(h) {
+				return false
+			}
+		}
+	}
+	return true
 }
 
 // ---------- C02 ----------
